@@ -6,6 +6,7 @@ import (
 	"bytes"
 	"errors"
 	"fmt"
+	"io"
 	"os"
 	"strings"
 	"sync"
@@ -158,11 +159,18 @@ type jsConfig struct {
 	Version      int
 	Precision    int
 	Inline       bool
+	Warm         bool // the Minifier value has minified an ordinary program before (state must not stick to it)
 }
 
 func (c jsConfig) String() string {
-	return fmt.Sprintf("js keepvarnames=%v version=%d precision=%d inline=%v", c.KeepVarNames, c.Version, c.Precision, c.Inline)
+	s := fmt.Sprintf("js keepvarnames=%v version=%d precision=%d inline=%v", c.KeepVarNames, c.Version, c.Precision, c.Inline)
+	if c.Warm {
+		s += " warm=true"
+	}
+	return s
 }
+
+const jsWarmProgram = "var total=0;function add(first,second){var sum=first+second;return total+=sum}for(let index=0;index<3;index++){add(index,1)}"
 
 func jsMinify(src string, c jsConfig) (string, error, string) {
 	var out bytes.Buffer
@@ -178,6 +186,9 @@ func jsMinify(src string, c jsConfig) (string, error, string) {
 		var params map[string]string
 		if c.Inline {
 			params = map[string]string{"inline": "1"}
+		}
+		if c.Warm {
+			o.Minify(minify.New(), io.Discard, strings.NewReader(jsWarmProgram), nil)
 		}
 		err = o.Minify(minify.New(), &out, strings.NewReader(src), params)
 	}()
